@@ -21,11 +21,14 @@ func main() {
 	seed := fs.Int64("seed", 1, "seed")
 	n := fs.Int("n", 0, "family specific count / budget")
 	mode := fs.String("mode", "", "family specific mode")
+	aux := fs.String("aux", "", "auxiliary input (e.g. policy table)")
 	fs.Parse(os.Args[2:]) //nolint:errcheck
 	var err error
 	switch os.Args[1] {
 	case "rslquery":
 		err = fam.RSLQuery(*scn, *out, *seed, *n)
+	case "verify":
+		err = fam.Verify(*scn, *aux, *out, *seed, *n)
 	case "delegations":
 		err = fam.Delegations(*scn, *out, *seed, *n)
 	case "signatures":
